@@ -30,6 +30,7 @@ EXPLANATION += ' (R9, round 8) also the close cells of the API handle (= C14.R5)
 EXPLANATION += ' (R11, round 9) = C18.R4 / R6: a migration that executed is committed whatever row count it reports, so the capability-table migrations cannot bring a removed document back on the next open.'
 EXPLANATION += ' Round 10: (R12) the failing-body and destructor rows of C06.R4; (R13) Store::remove_replica evaluated on an open document: an error, no table touched.'
 EXPLANATION += ' (R14, round 11) = C14.R9: the engine holds its handle exactly while it has the document joined.'
+EXPLANATION += ' (R15, round 12) exhaustiveness over the in-memory state of the store: every field of Store that can hold something per document is erased by remove_replica, or is the set its open guard consults, or is the public-key cache (no memo of a removed document survives it).'
 
 
 def r1(ctx, rule="C16.R1", only=None):
@@ -691,6 +692,67 @@ def r14(ctx):
     livefw.check_join_leave(ctx, "C16.R14")
     ctx.floor("C16.R14", 4)
 
+PER_DOC_KEY = ("NamespaceId", "[u8; 32]")
+ERASERS = ("remove", "remove_entry", "retain", "clear", "take", "swap_remove", "shift_remove", "pop", "invalidate", "drain", "extract_if")
+
+
+def mem_state(ctx, rule):
+    """"once removed, none of its entries, heads, peers, policy or capability can be observed": exhaustiveness over the *in-memory*
+    state of the store, next to R1's exhaustiveness over its tables. Every field of store::fs::Store whose type can hold something
+    per document (its type, expanded through crate-local structs, names NamespaceId or a 32-byte key) is either erased for the
+    removed document inside remove_replica (a remove / retain / clear ... on that field in remove_replica or a helper only it
+    calls), or is the set the open guard consults (remove_replica refuses while the document is in it, so a removed document is not),
+    or is the public-key cache (a pure function of the id, decided by C03.R10). A cache, memo or mirror added to the store that
+    remove_replica forgets is a second source of truth that outlives the document (C01-12, C13-12, C16-12)."""
+    f = ctx.facts
+    from .mir import trace, field_path
+    st = f.adt("store::fs::Store")
+    rr = f.body("store::fs::Store::remove_replica")
+    sc = f.scope(rr.path, prefix="store::fs")
+    ctx.touch(*sc)
+
+    def expand(ty, depth=0):
+        out = ty
+        if depth < 2:
+            for p, a in f.adts.items():
+                if p in ty and p.startswith(("store::", "sync::", "heads::", "ranger::")) and p != "store::fs::Store":
+                    for v in a["variants"]:
+                        for fl in v["fields"]:
+                            out += " " + expand(fl["ty"], depth + 1)
+        return out
+    touched = {}
+    for b in sc:
+        for bi, t in b.calls():
+            nm = t["f"].get("name") or ""
+            if not t["a"]:
+                continue
+            for o in trace(b, t["a"][0]):
+                fp = field_path(o)
+                if origin_summary(o).startswith("arg:self") and fp:
+                    touched.setdefault(fp[0], set()).add(nm)
+    n = 0
+    for fl in st["variants"][0]["fields"]:
+        ty = expand(fl["ty"])
+        if not any(k in ty for k in PER_DOC_KEY) or "redb::" in ty:
+            continue    # (a database / transaction handle is not in-memory state: what it reaches is the tables of R1)
+        n += 1
+        ops = touched.get(fl["name"], set())
+        if "store::pubkeys::MemPublicKeyStore" in fl["ty"]:
+            ctx.ok(rule, "store::fs::Store." + fl["name"], "in-memory-state-dies-with-the-document", "the public-key cache: its answers are a function of the id alone (C03.R10), nothing of a document is kept", st["sp"])
+            continue
+        erased = sorted(ops & set(ERASERS))
+        guard = sorted(ops & {"contains", "contains_key", "get"})
+        ok = bool(erased) or (bool(guard) and not (ops - {"contains", "contains_key", "get"}))
+        ctx.check(ok, rule, "store::fs::Store." + fl["name"], "in-memory-state-dies-with-the-document",
+                  "field of type %s; remove_replica applies %s to it; spec: erased for the removed document (one of %s), or only consulted by the open guard" % (fl["ty"], sorted(ops) or "nothing", "/".join(ERASERS[:4])), rr.sp)
+    if n < 2:
+        raise mir.AnchorMissing("expected the open set and the key cache among the per-document fields of store::fs::Store, found %d" % n)
+
+
+def r15(ctx):
+    mem_state(ctx, "C16.R15")
+    ctx.floor("C16.R15", 2)
+
 def run(ctx):
     ctx.run_rule("C16.R1", r1)
     ctx.run_rule("C16.R2", r2)
@@ -706,3 +768,4 @@ def run(ctx):
     ctx.run_rule("C16.R12", r12)
     ctx.run_rule("C16.R13", r13)
     ctx.run_rule("C16.R14", r14)
+    ctx.run_rule("C16.R15", r15)
